@@ -78,6 +78,12 @@ def step (line : String) : String :=
         | none => "raise"
         | some body => showBytes body ++ " " ++ showBPairs ((decodeMultipart b body).getD []))
      | _, _, _ => "bad-op")
+  | ["formenc", enc, similar] =>
+    (match strField enc, strField similar with
+     | some e, some sim =>
+       let U : UrlCodec := { urlencode := fun _ => e, parseQsl := fun _ => [], quote := id, unquote := id }
+       showStr (encodeForm U [] sim)
+     | _, _ => "bad-op")
   | ["mpdec", b, body] =>
     (match hexOr b, hexOr body with
      | some b, some body =>
